@@ -93,16 +93,26 @@ struct TxnRec {
     how: Mutex<String>,
 }
 
-#[derive(Default)]
 struct Log {
     seq: AtomicU64,
     events: Mutex<Vec<(u64, u64, &'static str)>>,
+    /// Milliseconds since the round started, per event (diagnostic only, never judged).
+    at_ms: Mutex<Vec<u64>>,
+    t0: Instant,
+}
+
+impl Default for Log {
+    fn default() -> Self {
+        Log { seq: AtomicU64::new(0), events: Mutex::default(), at_ms: Mutex::default(), t0: Instant::now() }
+    }
 }
 
 impl Log {
     fn ev(&self, txn: u64, kind: &'static str) -> u64 {
         let s = self.seq.fetch_add(1, Ordering::SeqCst) + 1;
-        self.events.lock().unwrap().push((s, txn, kind));
+        let mut ev = self.events.lock().unwrap();
+        ev.push((s, txn, kind));
+        self.at_ms.lock().unwrap().push(self.t0.elapsed().as_millis() as u64);
         s
     }
 }
@@ -288,7 +298,8 @@ struct Round {
 
 fn gen_round(rng: &mut Rng, next_id: &mut u64) -> Round {
     let db = if rng.chance(0.5) { Db::Memory } else { Db::FilePool4 };
-    let n_tasks = 2 + rng.usize_below(if rng.chance(0.25) { 15 } else { 5 });
+    let many = rng.chance(0.25);
+    let n_tasks = 2 + rng.usize_below(if many { 15 } else { 5 });
     let mut tasks = Vec::new();
     // Make sure every kind of end occurs in the round.
     let mut forced: Vec<(End, bool)> = vec![
@@ -315,7 +326,7 @@ fn gen_round(rng: &mut Rng, next_id: &mut u64) -> Round {
             let nrows = 1 + rng.usize_below(4);
             let cancel = if forced_cancel > 0 || rng.chance(0.15) {
                 forced_cancel = (forced_cancel as i32 - 1).max(0);
-                1 + rng.below(14)
+                1 + rng.below(24)
             } else {
                 0
             };
@@ -433,6 +444,8 @@ async fn wait_all(handles: &[JoinHandle<()>], w: &Watch<'_>, watchdog: Duration)
 struct RoundResult {
     recs: Vec<Arc<TxnRec>>,
     events: Vec<(u64, u64, &'static str)>,
+    at_ms: Vec<u64>,
+    fresh_retries: u64,
     counter: i64,
     rows: BTreeMap<u64, Vec<(i64, i64)>>,
     wedge: Option<(String, Value)>,
@@ -547,6 +560,7 @@ async fn run_round(round: &Round, seed: u64, next_id: &mut u64, dir: &std::path:
         let base = *next_id;
         *next_id += 100;
         handles.push(tokio::spawn(async move {
+            let mut uncancelled_in_a_row = 0;
             for j in 1..=90u64 {
                 let spec = TxnSpec {
                     id: base + j,
@@ -564,9 +578,15 @@ async fn run_round(round: &Round, seed: u64, next_id: &mut u64, dir: &std::path:
                 match done {
                     Some(p) => {
                         maxp.fetch_max(p, Ordering::SeqCst);
-                        break;
+                        // Pending counts vary with contention: stop only after three runs in a
+                        // row completed before reaching their cancellation point.
+                        uncancelled_in_a_row += 1;
+                        if uncancelled_in_a_row >= 3 {
+                            break;
+                        }
                     }
                     None => {
+                        uncancelled_in_a_row = 0;
                         let ph = phase_name(rec.phase.load(Ordering::SeqCst));
                         *hist.lock().unwrap().entry(ph.to_string()).or_insert(0) += 1;
                     }
@@ -604,6 +624,8 @@ async fn run_round(round: &Round, seed: u64, next_id: &mut u64, dir: &std::path:
     let mut result = RoundResult {
         recs: Vec::new(),
         events: Vec::new(),
+        at_ms: Vec::new(),
+        fresh_retries: 0,
         counter: -1,
         rows: BTreeMap::new(),
         wedge: None,
@@ -631,11 +653,19 @@ async fn run_round(round: &Round, seed: u64, next_id: &mut u64, dir: &std::path:
         h.abort();
     }
 
-    // A fresh transaction must be able to start now.
-    if result.wedge.is_none() && result.inconclusive.is_none() {
+    // A fresh transaction must be able to start (and run) now. A statement error such as
+    // SQLITE_BUSY is an allowed outcome of a single transaction (on a pooled file database the
+    // permit of a transaction dropped inside commit() is released while SQLite is still
+    // committing on the other connection, for some milliseconds); it is recorded and the fresh
+    // transaction is retried. Only a begin() that is wedged by state, a panic, a wiped database or
+    // 200 consecutive failures are reported.
+    let mut fresh_attempts = 0u64;
+    while result.wedge.is_none() && result.inconclusive.is_none() {
+        fresh_attempts += 1;
         *next_id += 1;
-        let spec = TxnSpec { id: *next_id, nrows: 0, end: End::Commit, via_macro: false, error_after_rows: 0, cancel_after: 0, yield_mask: 0 };
-        let rec = new_rec(&spec, 0);
+        let spec = TxnSpec { id: *next_id, nrows: 1, end: End::Commit, via_macro: false, error_after_rows: 0, cancel_after: 0, yield_mask: 0 };
+        let rec = new_rec(&spec, usize::MAX);
+        per_task_recs.push(Arc::new(Mutex::new(vec![rec.clone()])));
         let (s2, l2, r2, sp2) = (store.clone(), log.clone(), rec.clone(), spec.clone());
         let fin = vec![tokio::spawn(async move {
             let _ = run_txn(&s2, &sp2, &r2, &l2).await;
@@ -645,11 +675,19 @@ async fn run_round(round: &Round, seed: u64, next_id: &mut u64, dir: &std::path:
         match wait_all(&fin, &w, Duration::from_secs(60)).await {
             Waited::AllFinished => {
                 let how = rec.how.lock().unwrap().clone();
-                if how != "returned-ok" {
-                    result.wedge = Some((
-                        if how.starts_with("panicked") { "C10:begin-panicked".into() } else { "C10:fresh-transaction-failed".into() },
-                        json!({"when": "after all writers ended", "fresh_transaction": how, "phase": phase_name(rec.phase.load(Ordering::SeqCst))}),
-                    ));
+                if how == "returned-ok" {
+                    break;
+                }
+                let detail = json!({"when": "after all writers ended", "fresh_transaction": how, "attempts": fresh_attempts,
+                    "phase": phase_name(rec.phase.load(Ordering::SeqCst))});
+                if how.starts_with("panicked") {
+                    result.wedge = Some(("C10:begin-panicked".into(), detail));
+                } else if how.contains("no such table: vh_") {
+                    result.wedge = Some(("C10:in-memory-database-wiped-by-cancelled-acquire".into(), detail));
+                } else if fresh_attempts >= 200 {
+                    result.wedge = Some(("C10:fresh-transaction-keeps-failing".into(), detail));
+                } else {
+                    tokio::time::sleep(Duration::from_millis(20)).await;
                 }
             }
             Waited::Wedged(state) => {
@@ -662,6 +700,7 @@ async fn run_round(round: &Round, seed: u64, next_id: &mut u64, dir: &std::path:
             }
         }
     }
+    result.fresh_retries = fresh_attempts.saturating_sub(1);
 
     // Dump the committed state through the pool.
     if result.wedge.is_none() && result.inconclusive.is_none() {
@@ -678,6 +717,9 @@ async fn run_round(round: &Round, seed: u64, next_id: &mut u64, dir: &std::path:
                     result.rows.entry(txn as u64).or_default().push((k, seen));
                 }
             }
+            Ok(Err(e)) if e.to_string().contains("no such table: vh_") => {
+                result.wedge = Some(("C10:in-memory-database-wiped-by-cancelled-acquire".into(), json!({"when": "final dump", "error": e.to_string()})));
+            }
             Ok(Err(e)) => result.inconclusive = Some(format!("final dump failed: {e}")),
             Err(_) => result.inconclusive = Some("final dump timed out".into()),
         }
@@ -686,6 +728,7 @@ async fn run_round(round: &Round, seed: u64, next_id: &mut u64, dir: &std::path:
     let _ = enum_task;
     result.recs = per_task_recs.iter().flat_map(|v| v.lock().unwrap().clone()).collect();
     result.events = log.events.lock().unwrap().clone();
+    result.at_ms = log.at_ms.lock().unwrap().clone();
     result.cancel_phase_hist = cancel_hist.lock().unwrap().clone();
     result.max_pendings = max_pendings.load(Ordering::SeqCst);
     result.enum_js = enum_js.load(Ordering::SeqCst);
@@ -738,9 +781,10 @@ pub fn run(args: &Args) {
          the other); distinct by the hash of the global begin/commit/abort event order.",
         if args.tier == Tier::Quick { 20 } else { 200 },
     );
-    let rounds = args.n(120, 6_000);
+    let rounds = args.n(80, 3_000);
     let only = args.params.get("case").and_then(|c| c.parse::<u64>().ok());
-    let tmp = tempfile::tempdir().expect("tempdir");
+    // File databases go to tmpfs when available: the workload is about interleavings, not fsync.
+    let tmp = if std::path::Path::new("/dev/shm").is_dir() { tempfile::tempdir_in("/dev/shm") } else { tempfile::tempdir() }.expect("tempdir");
     let mut next_id = 0u64;
     let mut totals: BTreeMap<&'static str, u64> = BTreeMap::new();
     let mut cancel_hist: BTreeMap<String, u64> = BTreeMap::new();
@@ -753,7 +797,12 @@ pub fn run(args: &Args) {
 
     for i in 0..rounds {
         let mut rng = Rng::fork(args.seed, i);
-        let round = gen_round(&mut rng, &mut next_id);
+        let mut round = gen_round(&mut rng, &mut next_id);
+        match args.param("db") {
+            Some("file") => round.db = Db::FilePool4,
+            Some("memory") => round.db = Db::Memory,
+            _ => {}
+        }
         if let Some(c) = only {
             if c != i {
                 continue;
@@ -783,7 +832,7 @@ pub fn run(args: &Args) {
             .map(|r| json!({"txn": r.id, "task": r.task, "phase": phase_name(r.phase.load(Ordering::SeqCst)), "seen": r.seen.load(Ordering::SeqCst),
                 "how": *r.how.lock().unwrap(), "rows_present": res.rows.get(&r.id).map(|v| v.len()).unwrap_or(0)}))
             .collect();
-        let ev_tail: Vec<String> = res.events.iter().take(300).map(|(s, t, k)| format!("{s}:{t}:{k}")).collect();
+        let ev_tail: Vec<String> = res.events.iter().zip(res.at_ms.iter()).take(400).map(|((s, t, k), ms)| format!("{s}:{t}:{k}@{ms}ms")).collect();
         let witness = |detail: Value| -> Value {
             json!({"seed": args.seed, "case": i, "replay_args": format!("C10 --seed {} case={}", args.seed, i),
                 "plan": plan, "outcomes": outcomes, "final_counter": res.counter, "events": ev_tail, "detail": detail})
@@ -795,7 +844,12 @@ pub fn run(args: &Args) {
             continue;
         }
         if let Some((sig, w)) = &res.wedge {
-            rep.violation(sig, "an aborted transaction prevents later transactions from starting (decided on runtime state)", witness(w.clone()));
+            let what = match sig.as_str() {
+                "C10:in-memory-database-wiped-by-cancelled-acquire" => "after the writers ended the in-memory database had lost all tables and every committed transaction: a cancelled begin()/query closed the pool's only connection and the pool opened a fresh, empty database",
+                "C10:wedged-begin" => "an aborted transaction prevents later transactions from starting: begin() is pending while nothing is left in the runtime that could release the permit",
+                _ => "after all writers ended, 200 consecutive fresh transactions failed",
+            };
+            rep.violation(sig, what, witness(w.clone()));
             rep.case(None::<()>);
             continue;
         }
@@ -937,6 +991,7 @@ pub fn run(args: &Args) {
         };
         rep.case(if all_kinds && overlap { Some(hash_of(&order)) } else { None });
         rep.bump("transactions", res.recs.len() as u64);
+        rep.bump("fresh_transaction_retries_after_statement_errors_recorded_not_judged", res.fresh_retries);
         rep.bump("events", res.events.len() as u64);
         if overlap {
             rep.bump("rounds_with_overlapping_transactions", 1);
